@@ -21,7 +21,7 @@
    (Proofs/CopyHold.v).  In the protocol model Model/CopyImpl.v the same intervals are the program
    counters of [must_hold]: TExists (ExQ), TFind (NeedFetch, MF1, MF2), TPush (a leaf goes from
    TFind straight to TPush; a non-leaf passes TEnd .. TStart without a permit). *)
-From Oras Require Import Base.Prelude Model.CopySpec Model.CopyOpt.
+From Oras Require Import Base.Prelude Model.CopySpec Model.CopyOpt Model.CopyCancel.
 Local Open Scope nat_scope.
 
 Definition leaf (g : graph) (n : node) : bool :=
@@ -85,3 +85,41 @@ Fixpoint run_opt_h (cs : cbset) (g : graph) (c : cfg) (st : state) (tr : list ev
 
 Definition accepts_opt_h (cs : cbset) (g : graph) (c : cfg) (d0 : list node) (tr : list event) :=
   run_opt_h cs g c (init c d0) tr.
+
+(* the cancellation layer (Model/CopyCancel.cstep_opt) over the overlay's nil-callback step *)
+Definition cstep_opt_h (cs : cbset) (g : graph) (c : cfg) (s : cstate) (ce : cevent)
+  : option (cstate * list event) :=
+  match ce with
+  | Cancel =>
+      match returned (cs_st s) with
+      | Some _ => None
+      | None => Some (mkCState (cs_st s) true, [])
+      end
+  | Ev e =>
+      match step_opt_h cs g c (cs_st s) e with
+      | Some (st', full) => Some (mkCState st' (cs_cancelled s), full)
+      | None =>
+          match e, returned (cs_st s) with
+          | Ret false, None => if cs_cancelled s then Some (mkCState (ret_false (cs_st s)) true, []) else None
+          | _, _ => None
+          end
+      end
+  end.
+
+Fixpoint crun_opt_h (cs : cbset) (g : graph) (c : cfg) (s : cstate) (tr : list cevent)
+  : option (cstate * list event) :=
+  match tr with
+  | [] => Some (s, [])
+  | ce :: tr' =>
+      match cstep_opt_h cs g c s ce with
+      | None => None
+      | Some (s1, f1) =>
+          match crun_opt_h cs g c s1 tr' with
+          | None => None
+          | Some (s2, f2) => Some (s2, f1 ++ f2)
+          end
+      end
+  end.
+
+Definition caccepts_opt_h (cs : cbset) (g : graph) (c : cfg) (d0 : list node) (tr : list cevent) :=
+  crun_opt_h cs g c (mkCState (init c d0) false) tr.
